@@ -77,6 +77,10 @@ let emit kind id tr fin =
   let fin' = destroy_all fin in
   let last = "-|" ^ evs (new_events fin.led fin'.led) ^ "|-" in
   Printf.printf "OUT %s %s %s\n" kind id (String.concat ";" (steps @ [last]))
+(* the block ledger: live heap blocks after every step, blocks nobody owns any more at scope exit *)
+let emit_blk kind id lives leaked =
+  Printf.printf "BLK %s %s %s %d\n" kind id
+    (String.concat "." (List.map (fun n -> string_of_int (int_of_nat n)) lives)) (int_of_nat leaked)
 let emit_spec kind id tr =
   Printf.printf "SPEC %s %s %s\n" kind id
     (String.concat ";" (List.map (fun (o, em) -> out_str o ^ "|" ^ bits em) tr))
@@ -93,6 +97,7 @@ let types_line line =
       if k = "F" then
         let inl = function_inline (nn size) in
         (if inl then "1" else "0") ^ (if inl = not big then "" else "!")
+        ^ (if function_misplaced (nn size) (nn align) = (aln && inl) then "" else "!m")
       else
         let wk = if k = "U" then KUnique else if k = "A" then KAny else KOpState in
         let e = sender_embeds sbo wk (nn size) (nn align) in
@@ -113,6 +118,7 @@ let () =
         let ops = List.map (sxop_of nu) strs in
         let (tr, fin) = trace (sxstep sbo) ops (init (nat (nu + na))) in
         emit "SND" id tr fin;
+        (let (lv, (fs, fb)) = sblive sbo ops (init (nat (nu + na))) b0 in emit_blk "SND" id lv (leaked_at_exit fs fb));
         let plain = List.map (sop_of nu) strs in
         if all_some plain then
           emit_spec "SND" id (spec_trace sspec (List.map get plain) (List.init (nu + na) (fun _ -> None)))
@@ -122,6 +128,7 @@ let () =
         let ops = List.map gop_of strs in
         let (tr, fin) = gtrace ops (xinit (nat n)) in
         emit kind id tr fin.xs;
+        (let (lv, (fx, fb)) = gblive ops (xinit (nat n)) b0 in emit_blk kind id lv (leaked_at_exit fx.xs fb));
         let plain = List.map fop_of strs in
         if all_some plain then
           emit_spec kind id (spec_trace fspec (List.map get plain) (List.init n (fun _ -> None)))
